@@ -481,6 +481,16 @@ func cmdCheck(args []string) int {
 		"bounded_obligations":      0,
 		"per_solver_timeout_s":     to,
 	}
+	if StabilityProbed > 0 {
+		ev.Coverage["seed_stability_probed"] = StabilityProbed
+		ev.Coverage["seed_unstable"] = len(StabilityUnstable)
+		if len(StabilityUnstable) > 40 {
+			ev.Coverage["seed_unstable_obligations"] = StabilityUnstable[:40]
+		} else {
+			ev.Coverage["seed_unstable_obligations"] = StabilityUnstable
+		}
+		fmt.Printf("stability: %d discharged obligations re-run with two other solver seeds, %d proved by neither within 10 s\n", StabilityProbed, len(StabilityUnstable))
+	}
 	if *evPath != "" {
 		os.MkdirAll(filepath.Dir(*evPath), 0o755)
 		data, _ := json.MarshalIndent(ev, "", " ")
